@@ -52,6 +52,7 @@ def run(prog, R, tier="quick", only_rule=None):
     # newer L0 tables never overtake older ones on the way down (shared with C06.l)
     from rules.props import c06
     c06.c06l(prog, R, rid="C07.i")
+    c06.c06p(prog, R, rid="C07.l")
     # "matches its manifest": a version is visible in memory only after its file and `current` were written
     from rules.props import c02
     c02.c02a(prog, R, rid="C07.j")
